@@ -465,4 +465,22 @@ PROPS['C18'] = dict(
     not_decided=['end-of-series psi selection of the returned value', 'C engine unbounded', 'kbest_matches histories'],
 )
 
+PROPS['C17'] = dict(
+    modules=['contracts.nw_py'],
+    contracts=['dp.dp'],
+    lemmas=[],
+    bounded={'alignment-native-sweep': lambda run: _native_sweep(
+        'nw_native.py',
+        'pairs of sequences over {A,B,C} (lengths 0..3 sampled, some up to 5) x substitution (default, dictionary with gap 1/0.5/2, '
+        'max/min orientation) x traceback order: value == exhaustive maximum over all global alignments; best_alignment gives '
+        'equal-length gapped sequences that reduce to the inputs, no gap/gap column, score == value', 300, 0)(run)},
+    level='proof',
+    level_text='dp.dp as needleman_wunsch calls it is proved to fill the score matrix with the alignment-cost recurrence NWS and '
+               'the traceback matrix with exactly the arrows of the minimising predecessors.',
+    level_note='work in progress',
+    trusted_base=[PY_A1, A3_NUMPY, A7],
+    assumptions=[PY_A1, A3_NUMPY, A7],
+    not_decided=[],
+)
+
 NOT_APPLICABLE = {p: 'not decided yet: machinery for this property is still being built (see DESIGN.md §9 order of work)' for p in ['C01', 'C02', 'C03', 'C04', 'C05', 'C06', 'C07', 'C08', 'C09', 'C10', 'C11', 'C12', 'C13', 'C14', 'C15', 'C16', 'C17', 'C18', 'C19', 'C20'] if p not in PROPS}
